@@ -45,6 +45,9 @@ type c18Case struct {
 	Cls  string  `json:"cls"`
 	Text string  `json:"text"`
 	Rule c18Rule `json:"rule"`
+	Pair  bool   `json:"pair"`
+	Cls2  string `json:"cls2"`
+	Text2 string `json:"text2"`
 }
 
 type c18Rec struct {
@@ -62,6 +65,9 @@ type c18Rec struct {
 	Panic    bool    `json:"panic"`
 	Hang     bool    `json:"hang"`
 	Frame    string  `json:"frame"`
+	Pair     bool    `json:"pair"`
+	Cls2     string  `json:"cls2"`
+	Text2    string  `json:"text2"`
 }
 
 // c18Fake is a minimal Prometheus HTTP API: one series up{job="x"} that is always present.
@@ -95,6 +101,9 @@ func c18Fake() *httptest.Server {
 				vals = append(vals, []any{t, "1"})
 			}
 			send(w, ok(map[string]any{"resultType": "matrix", "result": []any{map[string]any{"metric": metric, "values": vals}}}))
+		case strings.HasSuffix(p, "/query") && strings.Contains(r.Form.Get("query"), "gone"):
+			// a metric that is not there right now (its range queries still return history)
+			send(w, ok(map[string]any{"resultType": "vector", "result": []any{}}))
 		case strings.HasSuffix(p, "/query"):
 			send(w, ok(map[string]any{"resultType": "vector", "result": []any{
 				map[string]any{"metric": metric, "value": []any{float64(time.Now().Unix()), "1"}}}}))
@@ -138,6 +147,31 @@ func c18RuleBlock(inner string) string {
 }
 
 // c18Config renders the configuration for one option under test; v is the value as written by the user.
+// c18PairConfig: two options under test in one block.
+func c18PairConfig(opt, v1, v2, promURI string) (string, error) {
+	q1, q2 := hclQuote(v1), hclQuote(v2)
+	report := c18Block("report", `comment = "x"`, `severity = "info"`)
+	switch opt {
+	case "pair.label.key+token":
+		return c18RuleBlock(c18Block("label "+q1, "token = "+q2)), nil
+	case "pair.label.key+value":
+		return c18RuleBlock(c18Block("label "+q1, "value = "+q2)), nil
+	case "pair.annotation.key+value":
+		return c18RuleBlock(c18Block("annotation "+q1, "value = "+q2)), nil
+	case "pair.ignore.name+name":
+		return c18RuleBlock(c18Block("ignore", "name = "+q1) + "name " + q2 + " {}\n"), nil
+	case "pair.match.kind+name":
+		return c18RuleBlock(c18Block("match", "kind = "+q1) + "name " + q2 + " {}\n"), nil
+	case "pair.match.label.key+value":
+		return c18RuleBlock(c18Nest("match", c18Block("label "+q1, "value = "+q2)) + report), nil
+	case "pair.for.min+max":
+		return c18RuleBlock(c18Block("for", "min = "+q1, "max = "+q2)), nil
+	case "pair.prometheus.include+exclude":
+		return c18Block(`prometheus "p"`, "uri = "+hclQuote(promURI), "include = ["+q1+"]", "exclude = ["+q2+"]"), nil
+	}
+	return "", fmt.Errorf("unknown pair %s", opt)
+}
+
 func c18Config(opt, typ, v, mode, promURI string) (string, error) {
 	cfg, err := c18ConfigOpt(opt, typ, v, promURI)
 	if err != nil {
@@ -298,7 +332,117 @@ func c18ConfigOpt(opt, typ, v, promURI string) (string, error) {
 	case "prometheus.concurrency", "prometheus.rateLimit":
 		return c18Block(`prometheus "p"`, puri, parts[1]+" = "+raw), nil
 	}
+	if cfg, ok := c18ConfigWide(opt, q, raw, promURI); ok {
+		return cfg, nil
+	}
 	return "", fmt.Errorf("unknown option %s", opt)
+}
+
+type c18Field struct{ k, v string }
+
+// c18Fields renders `k = v` lines, replacing (or adding) the field under test.
+func c18Fields(base []c18Field, key, val string) []string {
+	out := []string{}
+	done := false
+	for _, f := range base {
+		if f.k == key {
+			out = append(out, key+" = "+val)
+			done = true
+		} else {
+			out = append(out, f.k+" = "+f.v)
+		}
+	}
+	if !done {
+		out = append(out, key+" = "+val)
+	}
+	return out
+}
+
+func c18Nest(outer string, inner ...string) string {
+	var b strings.Builder
+	b.WriteString(outer + " {\n")
+	for _, in := range inner {
+		b.WriteString("  " + strings.ReplaceAll(strings.TrimRight(in, "\n"), "\n", "\n  ") + "\n")
+	}
+	b.WriteString("}\n")
+	return b.String()
+}
+
+// c18ConfigWide: prometheus{} extras, tls{}, check{} blocks, ci, discovery{} and repository{} (phase 2).
+func c18ConfigWide(opt, q, raw, promURI string) (string, bool) {
+	puri := hclQuote(promURI)
+	last := opt[strings.LastIndex(opt, ".")+1:]
+	listOrMap := func(key string) string {
+		switch key {
+		case "headers":
+			return "{\n    \"X-Verif\" = " + q + "\n  }"
+		case "failover", "include", "exclude", "tags", "ignore", "ignoreMatchingElsewhere":
+			return "[" + q + "]"
+		case "required", "skipVerify", "smelly", "maxComments", "project":
+			return raw
+		}
+		return q
+	}
+	switch {
+	case opt == "prometheus.publicURI" || opt == "prometheus.headers" || opt == "prometheus.tags" || opt == "prometheus.required":
+		return c18Block(`prometheus "p"`, "uri = "+puri, last+" = "+listOrMap(last)), true
+	case strings.HasPrefix(opt, "prometheus.tls."):
+		return c18Nest(`prometheus "p"`, "uri = "+puri, c18Block("tls", last+" = "+listOrMap(last))), true
+	case opt == "check.name":
+		return "check " + q + " {}\n", true
+	case opt == "check.regexp.smelly":
+		return c18Block(`check "promql/regexp"`, "smelly = "+raw), true
+	case opt == "check.series.ignoreMatchingElsewhere":
+		return c18Block(`check "promql/series"`, "ignoreMatchingElsewhere = ["+q+"]"), true
+	case opt == "ci.baseBranch":
+		return c18Block("ci", "baseBranch = "+q), true
+	case strings.HasPrefix(opt, "discovery.filepath."):
+		fp := []c18Field{{"directory", `"servers"`}, {"match", hclQuote(`(?P<name>\w+)\.yml`)}}
+		tp := []c18Field{{"name", hclQuote("d-{{ $name }}")}, {"uri", puri}}
+		var fl, tl []string
+		if strings.HasPrefix(opt, "discovery.filepath.template.") {
+			fl, tl = c18Fields(fp, "", ""), c18Fields(tp, last, listOrMap(last))
+			fl = fl[:len(fl)-1]
+		} else {
+			fl, tl = c18Fields(fp, last, listOrMap(last)), c18Fields(tp, "", "")
+			tl = tl[:len(tl)-1]
+		}
+		return c18Nest("discovery", c18Nest("filepath", append(fl, c18Block("template", tl...))...)), true
+	case strings.HasPrefix(opt, "discovery.query."):
+		qp := []c18Field{{"uri", puri}, {"query", `"up"`}}
+		tp := []c18Field{{"name", hclQuote("q-{{ $job }}")}, {"uri", puri}}
+		var ql, tl []string
+		if strings.HasPrefix(opt, "discovery.query.template.") {
+			ql, tl = c18Fields(qp, "", ""), c18Fields(tp, last, listOrMap(last))
+			ql = ql[:len(ql)-1]
+		} else {
+			ql, tl = c18Fields(qp, last, listOrMap(last)), c18Fields(tp, "", "")
+			tl = tl[:len(tl)-1]
+		}
+		return c18Nest("discovery", c18Nest("prometheusQuery", append(ql, c18Block("template", tl...))...)), true
+	case strings.HasPrefix(opt, "repository.bitbucket."):
+		f := []c18Field{{"uri", `"http://127.0.0.1:1"`}, {"project", `"p"`}, {"repository", `"r"`}}
+		v := q
+		if last == "maxComments" {
+			v = raw
+		}
+		return c18Nest("repository", c18Block("bitbucket", c18Fields(f, last, v)...)), true
+	case strings.HasPrefix(opt, "repository.github."):
+		f := []c18Field{{"owner", `"o"`}, {"repo", `"r"`}}
+		v := q
+		if last == "maxComments" {
+			v = raw
+		}
+		return c18Nest("repository", c18Block("github", c18Fields(f, last, v)...)), true
+	case strings.HasPrefix(opt, "repository.gitlab."):
+		f := []c18Field{{"project", "1"}}
+		v := q
+		if last == "maxComments" || last == "project" {
+			v = raw
+		}
+		return c18Nest("repository", c18Block("gitlab", c18Fields(f, last, v)...)), true
+	}
+	return "", false
 }
 
 func yq(s string) string { b, _ := json.Marshal(s); return string(b) }
@@ -315,7 +459,7 @@ func c18RuleFile(r c18Rule) string {
 					yq(r.Foo), yq(r.Summary), yq(r.Link))
 			}
 		} else {
-			fmt.Fprintf(&b, "  - record: %s\n    expr: sum(up)\n", yq(name))
+			fmt.Fprintf(&b, "  - record: %s\n    expr: sum(gone)\n", yq(name))
 			if full {
 				fmt.Fprintf(&b, "    labels:\n      foo: %s\n", yq(r.Foo))
 			}
@@ -334,7 +478,7 @@ func c18RuleFile(r c18Rule) string {
 }
 
 // a lint run of one rule takes milliseconds; a run still alive after this long (twice) is a hang
-const c18Deadline = 25 * time.Second
+const c18Deadline = 12 * time.Second
 
 var c18FrameRe = regexp.MustCompile(`^(github\.com/cloudflare/pint/[^\s(]+|main\.[A-Za-z0-9_.]+)`)
 
@@ -418,7 +562,7 @@ func init() {
 		groups := map[string][]int{}
 		var keys []string
 		for i, c := range cases {
-			k := c.Opt + "\x00" + c.Cls
+			k := c.Opt + "\x00" + c.Cls + "\x00" + c.Cls2
 			if _, ok := groups[k]; !ok {
 				keys = append(keys, k)
 			}
@@ -446,7 +590,13 @@ func init() {
 			if first.Mode == "prom" {
 				promURI = fake.URL
 			}
-			cfg, err := c18Config(first.Opt, first.Type, first.Text, first.Mode, promURI)
+			var cfg string
+			var err error
+			if first.Pair {
+				cfg, err = c18PairConfig(first.Opt, first.Text, first.Text2, promURI)
+			} else {
+				cfg, err = c18Config(first.Opt, first.Type, first.Text, first.Mode, promURI)
+			}
 			if err != nil {
 				errs[g] = err
 				return
@@ -455,6 +605,11 @@ func init() {
 				errs[g] = err
 				return
 			}
+			// files some options point at: a junk PEM file and a directory of "server" files for filepath discovery
+			_ = os.WriteFile(filepath.Join(dir, "junk.pem"), []byte("not a certificate\n"), 0o644)
+			_ = os.MkdirAll(filepath.Join(dir, "servers"), 0o755)
+			_ = os.WriteFile(filepath.Join(dir, "servers", "prom1.yml"), []byte("x: 1\n"), 0o644)
+			_ = os.WriteFile(filepath.Join(dir, "servers", "prom2.yml"), []byte("x: 1\n"), 0o644)
 			cexit, cse, err := c18Run(pint, dir, 120*time.Second, "--no-color", "config")
 			if err != nil {
 				errs[g] = err
@@ -480,7 +635,7 @@ func init() {
 			for _, i := range idx {
 				c := cases[i]
 				rec := c18Rec{Ev: "Case", ID: i + 1, Opt: c.Opt, Cls: c.Cls, Text: c.Text, Mode: c.Mode, Rule: c.Rule,
-					Accepted: cexit == 0, LoadErr: loadErr}
+					Accepted: cexit == 0, LoadErr: loadErr, Pair: c.Pair, Cls2: c.Cls2, Text2: c.Text2}
 				if cexit == 0 {
 					if err := os.WriteFile(filepath.Join(dir, "rules.yml"), []byte(c18RuleFile(c.Rule)), 0o644); err != nil {
 						errs[g] = err
